@@ -332,6 +332,10 @@ class FakeSnowflakeCursor:
                 lambda e: transforms.describe_table(e, self._conn.database, self._conn.schema)
             ).sql(dialect="duckdb")
 
+        elif isinstance(transformed, (exp.TruncateTable, exp.Comment)):
+            # duckdb returns a row count for TRUNCATE and nothing for COMMENT ON COLUMN, snowflake a status row
+            result_sql = SQL_SUCCESS
+
         elif (eid := transformed.find(exp.Identifier, bfs=False)) and isinstance(eid.this, str):
             ident = eid.this if eid.quoted else eid.this.upper()
             if cmd == "CREATE SCHEMA" and ident:
